@@ -25,4 +25,5 @@ def suites(tier):
     jobs.append(dict(id=jid("range", cfg), func="zzH_C10_range", cfg=cfg))
     cfg = dict(ntmax=3 if q else 4, lim=4 if q else 5)
     jobs.append(dict(id=jid("transform", cfg), func="zzH_C10_transform", cfg=cfg))
-    return [dict(SRC, name="src", jobs=jobs)]
+    jobs.append(dict(id="nth", func="zzH_C10_nth", cfg={}))
+    return [src_suite("src", jobs)]
